@@ -149,6 +149,11 @@ class Models:
             import builtins
             if hasattr(builtins, name) and isinstance(getattr(builtins, name), type):
                 return TypeV(name)
+            if not hasattr(builtins, name):
+                # neither a local bound on this path, nor a name of the module, an import or a builtin: Python raises
+                # NameError (UnboundLocalError for a local that was never assigned on this path)
+                self.flag("unbound-name", node, f"name '{name}' is not bound on this path")
+                self.I.raise_("NameError", node)
             self.I.unsupported(node, f"unresolved name {name}")
         kind = r[0]
         if kind == "class":
